@@ -471,15 +471,18 @@ C15_All == C15_LevelFunction /\ C15_ExplicitAtStart /\ C15_Order /\ C15_FcLePv /
 \* C10  scheduled management: exactly once, in schedule order, on time, in full
 \*      header: Gen.fert = <<<<date, kg, idx>>..>>, Gen.irr = <<<<date, mm, ppm>>..>>, Gen.till = <<<<date, cm>>..>>,
 \*      Gen.rot = <<<<sow, harv>>..>> (entry 1 = initial crop), Gen.fertExp[i] = table amounts of fert event i
-\*      (limbs, 10^-9 kg N/ha).  Verdict domain: events dated in [begin + 1, end - 2]; earlier ones must be ignored.
+\*      (limbs, 10^-9 kg N/ha).  Verdict domain: fertilisation and tillage (carried out the day after their date) dated
+\*      in [begin + 1, end - 2], irrigation in [begin, end]; earlier ones must be ignored.
 \* =============================================================================================
 AtRunEnd == l > 1 /\ Ev.ev = "run.end"
 HasSched == ix.gen > 0 /\ Has(Gen, "fert")
 InDom(d) == d >= Cfg.begin + 1 /\ d <= Cfg.ende - 2
 SelDates(s) == SelectSeq(s, LAMBDA e : InDom(e[1]))
 \* irrigation: once, in order, on its date, with its amount
+\* (irrigation is applied on its date, there is no boundary question: every date of the simulated period counts)
+InPeriod(d) == d >= Cfg.begin /\ d <= Cfg.ende
 C10_Irrigation == (AtRunEnd /\ Ev.ok /\ HasSched) =>
-   LET exp == SelDates(Gen.irr) IN
+   LET exp == SelectSeq(Gen.irr, LAMBDA e : InPeriod(e[1])) IN
    /\ Len(hist.irr) = Len(exp)
    /\ \A i \in 1..Len(exp) : i <= Len(hist.irr) => hist.irr[i][1] = exp[i][1] /\ hist.irr[i][2] = exp[i][2] * 1000000
 \* the irrigation water enters that day's infiltration: effective irrigation = mm / 10 cm, and it is part of the day's rain
